@@ -48,7 +48,13 @@ func crossNames(t *rapid.T, d *Decl) {
 			if a == b || a.ViaAdd || b.ViaAdd {
 				continue // (ini-name is a tag; options added in code have neither tag nor field name)
 			}
-			switch rapid.IntRange(0, 4).Draw(t, "crossKind") {
+			switch rapid.IntRange(0, 6).Draw(t, "crossKind") {
+			case 5:
+				if b.Long != "" && strings.ToUpper(b.Long) != b.Long {
+					a.IniName = strings.ToUpper(b.Long)
+				}
+			case 6:
+				a.IniName = flipCase(b.Field)
 			case 0:
 				a.IniName = b.Field
 			case 1:
